@@ -59,7 +59,7 @@ def propagate_fft(wavefront, pixelscale, shape=None, oversample=2,
                             f'least one dimension than maximum propagation '
                             f'shape {tuple(fft_shape//oversample)}')
         else:
-            shape_out = (shape[0] * oversample, shape[1]*oversample)
+            shape_out = tuple(_whole((shape[0] * oversample, shape[1]*oversample)))
 
     out = Wavefront.empty(wavelength=prop_wavelength,
                           pixelscale = pixelscale/oversample,
@@ -91,6 +91,15 @@ def propagate_fft(wavefront, pixelscale, shape=None, oversample=2,
     out.data.append(Field(data=field, pixelscale=pixelscale/oversample))
 
     return out
+
+
+def _whole(shape):
+    # shape * oversample is a number of samples: a whole number that arrives in
+    # a float (oversample=2.0, the documented type) is that number
+    shape = np.asarray(shape)
+    if shape.dtype.kind == 'f' and np.all(shape == np.rint(shape)):
+        shape = shape.astype(int)
+    return shape
 
 
 def scratch_shape(wavelength, dx, du, z, oversample):
@@ -188,8 +197,8 @@ def propagate_dft(wavefront, pixelscale, shape=None, prop_shape=None,
     # oversample must not wrap around in, say, uint8)
     shape = np.asarray(wavefront.shape) if shape is None else np.broadcast_to(shape, (2,)).astype(int)
     prop_shape = np.asarray(shape) if prop_shape is None else np.broadcast_to(prop_shape, (2,)).astype(int)
-    shape_out = shape * oversample
-    prop_shape_out = prop_shape * oversample
+    shape_out = _whole(shape * oversample)
+    prop_shape_out = _whole(prop_shape * oversample)
 
     if mask is not None:
         mask = np.asarray(mask)
